@@ -20,6 +20,8 @@ pub struct TraitCodegen<'s> {
     pub trait_indirection: TraitIndirection,
     pub trait_dependency_mode: &'s TraitDependencyMode<'s, 's>,
     pub sub_attributes: &'s [SubAttribute<'s>],
+    /// `unsafe trait` (only entraited traits can be)
+    pub unsafety: Option<syn::token::Unsafe>,
 }
 
 impl TraitCodegen<'_> {
@@ -84,6 +86,7 @@ impl TraitCodegen<'_> {
 
         let params = trait_generics.trait_params();
         let where_clause = trait_generics.trait_where_clause();
+        let unsafety = &self.unsafety;
 
         // For a hand-written (entraited) trait every attribute the user wrote stays on the trait.
         // For generated traits only `async_trait` / `automock` are taken over from the fn/mod/impl block.
@@ -101,7 +104,7 @@ impl TraitCodegen<'_> {
             #opt_entrait_for_trait_attr
             #opt_mockall_automock_attr
             #(#trait_sub_attributes)*
-            #trait_visibility trait #trait_ident #params #supertraits #where_clause {
+            #trait_visibility #unsafety trait #trait_ident #params #supertraits #where_clause {
                 #(#fn_defs)*
             }
         })
